@@ -1,7 +1,7 @@
 """Layout / capacity agreement rules (C03 layout clause, C11 reader-writer agreement)."""
 import re
 from facts import callee_name, strip_refs
-from guards import describe, guards_at, eval_int
+from guards import describe, guards_at, eval_int, find_call
 from callgraph import ALLOC_SITES
 
 HB = "repr::heap_buffer::HeapBuffer::"
@@ -38,6 +38,16 @@ def size_leaves(body, e, out, ops, depth=0, seen=None):
                 out.append("closure:" + describe(body, clo).split("{")[0])
             return
         out.append(describe(body, e))
+        return
+    if e[0] == "field" and e[1][0] in ("bin",) and e[1][1].endswith("WithOverflow") and e[2] == 0:
+        ops.add("raw:" + e[1][1])
+        size_leaves(body, e[1][2], out, ops, depth + 1, seen)
+        size_leaves(body, e[1][3], out, ops, depth + 1, seen)
+        return
+    if e[0] == "bin":
+        ops.add("raw:" + e[1])
+        size_leaves(body, e[2], out, ops, depth + 1, seen)
+        size_leaves(body, e[3], out, ops, depth + 1, seen)
         return
     if e[0] == "field" and e[1][0] == "downcast":
         # Ok / Some payload
@@ -78,33 +88,34 @@ def rule_layout_agreement(ctx, rule="LAYOUT"):
     hdr = "core::mem::size_of::<repr::heap_buffer::Header>()"
     usz = "core::mem::size_of::<usize>()"
     if lfc:
-        # the Ok-producing definition of the return place
+        # the Ok-producing definition(s) of the return place
         okdefs = []
         for (bb, si, x) in lfc.defs.get(0, []):
             e = ("call", bb) if si == "term" else lfc.origin_rvalue(x)
             d = describe(lfc, e)
-            if "from_residual" in d.split("(")[0]:
+            if d.startswith("err(") or d.startswith("core::result::Result::Err{"):
                 continue
             okdefs.append((e, d))
         ctx.need(rule, lfc.path, "ok-def", len(okdefs) == 1, "layout_from_capacity has %d non-error definitions of its result" % len(okdefs))
         for e, d in okdefs:
-            # shape: map_err(Layout::from_size_align(SIZE, align()), _)  — nothing applied to the layout after
-            m = re.match(r"^core::result::Result::<T, E>::map_err\(core::alloc::layout::Layout::from_size_align\(", d)
-            ctx.ob(rule, lfc.path, "layout=from_size_align(size, align)", bool(m), how="result is Layout::from_size_align(size, align) mapped to ReserveError, untransformed",
+            # shape: the Layout returned is exactly Layout::from_size_align(SIZE, ALIGN) — as
+            # `from_size_align(..).map_err(..)` or `match .. { Ok(l) => Ok(l), .. }` — with nothing
+            # applied to it afterwards
+            m = re.match(r"^core::result::Result::<T, E>::map_err\(core::alloc::layout::Layout::from_size_align\(", d) or re.match(r"^core::result::Result::Ok\{ok\(core::alloc::layout::Layout::from_size_align\(", d)
+            ctx.ob(rule, lfc.path, "layout=from_size_align(size, align)", bool(m), how="result is Layout::from_size_align(size, align) with the error mapped to ReserveError, untransformed",
                    detail="layout_from_capacity post-processes the layout (%s...): realloc sizes the block by hand and would disagree" % d[:120])
-            if m and e[0] == "call":
-                fsa = strip_refs(lfc.origin_operand(lfc.term(e[1])["args"][0]))
-                if fsa[0] == "call":
-                    t = lfc.term(fsa[1])
-                    leaves, ops = [], set()
-                    size_leaves(lfc, lfc.origin_operand(t["args"][0]), leaves, ops)
-                    want = {hdr, CAP + "as_usize(&p1)"}
-                    got = set(l for l in leaves if not l.startswith("closure:"))
-                    ctx.ob(rule, lfc.path, "size=header+capacity", got == want and ops <= {"checked_add"},
-                           how="size = checked(size_of::<Header>() + capacity [+ size_of::<usize>() in the on-heap-length layout])",
-                           detail="layout size is built from %s with %s" % (sorted(leaves), sorted(ops)))
-                    al = describe(lfc, lfc.origin_operand(t["args"][1]))
-                    ctx.ob(rule, lfc.path, "align", al == HB + "align()", how="align = HeapBuffer::align()", detail="layout alignment is %s" % al)
+            fb = find_call(lfc, e, ("core::alloc::layout::Layout::from_size_align",))
+            if m and fb is not None:
+                t = lfc.term(fb)
+                leaves, ops = [], set()
+                size_leaves(lfc, lfc.origin_operand(t["args"][0]), leaves, ops)
+                want = {hdr, CAP + "as_usize(&p1)"}
+                got = set(l for l in leaves if not l.startswith("closure:")) - {usz}
+                ctx.ob(rule, lfc.path, "size=header+capacity", got == want and ops <= {"checked_add"},
+                       how="size = checked(size_of::<Header>() + capacity [+ size_of::<usize>() in the on-heap-length layout])",
+                       detail="layout size is built from %s with %s" % (sorted(leaves), sorted(ops)))
+                al = describe(lfc, lfc.origin_operand(t["args"][1]))
+                ctx.ob(rule, lfc.path, "align", al == HB + "align()", how="align = HeapBuffer::align()", detail="layout alignment is %s" % al)
     # allocator call sites take their layout from layout_from_capacity of the capacity stored in the header
     re_hdr_cap = r"repr::heap_buffer::HeapBuffer::layout_from_capacity\(\*repr::heap_buffer::HeapBuffer::header\(p1\)\.1\)"
     for path, b in F.bodies.items():
@@ -117,7 +128,7 @@ def rule_layout_agreement(ctx, rule="LAYOUT"):
                 d = describe(b, b.origin_operand(t["args"][1]))
                 ctx.ob(rule, path, "dealloc-layout", re.search(re_hdr_cap, d) is not None, how="dealloc(layout_from_capacity(header().capacity))", detail="dealloc called with layout %s" % d)
                 p = describe(b, b.origin_operand(t["args"][0]))
-                ctx.ob(rule, path, "dealloc-ptr", p == HB + "allocation(p1)", how="dealloc(self.allocation(), ..)", detail="dealloc called with pointer %s" % p)
+                ctx.ob(rule, path, "dealloc-ptr", p == _alloc_start_desc(b), how="dealloc(start of the allocation, ..)", detail="dealloc called with pointer %s" % p)
             elif n == "alloc::alloc::realloc":
                 d = describe(b, b.origin_operand(t["args"][1]))
                 ctx.ob(rule, path, "realloc-old-layout", re.search(re_hdr_cap, d) is not None, how="realloc(.., layout_from_capacity(header().capacity), ..)", detail="realloc called with old layout %s" % d)
@@ -162,6 +173,19 @@ def rule_layout_agreement(ctx, rule="LAYOUT"):
                     if "heap_buffer::Header" in lt:
                         ctx.ob(rule, path, "header-field-store", False, line=s.get("line", 0),
                                detail="a Header field is stored in place (outside the write of a fresh header next to the allocator call): the recorded capacity can disagree with the block's real size")
+
+
+def _alloc_start_desc(b):
+    """what `self.allocation()` describes as — whatever the accessor is called, realloc and dealloc
+    must hand the allocator the same pointer expression"""
+    F = b.facts
+    for path in (HB + "realloc",):
+        rb = F.bodies.get(path)
+        if rb:
+            for bb, t in rb.calls():
+                if callee_name(t) == "alloc::alloc::realloc":
+                    return describe(rb, rb.origin_operand(t["args"][0]))
+    return HB + "allocation(p1)"
 
 
 def rule_null_checks(ctx, rule="NULLCHK"):
